@@ -235,3 +235,24 @@ proof fn const_corr_table()
     return vf
 
 
+
+
+def counterexample(failure, repo_root):
+    """Twin check for a failed rule clause: exhaustive enumeration of the rule's finite domain on the
+    real crate built from the tree under check (always finds the input if there is one)."""
+    from vlib import replay
+    rule = failure["fn"]
+    if not (rule.startswith("Correctness::") or rule.startswith("Malleability::")):
+        rule = rule.replace("Type::", "Correctness::")
+    rc, out = replay.run(repo_root, ["types", rule])
+    lines = [l for l in out.split("\n") if l.startswith("COUNTEREXAMPLE")]
+    if rc == 1 and lines:
+        return dict(kind="exhaustive-enumeration", rule=rule, inputs=lines[:3], summary=[l for l in out.split("\n") if l.startswith("SEARCHED")])
+    return None
+
+
+def replay(rec, repo_root):
+    from vlib import replay as R
+    rc, out = R.run(repo_root, ["types", rec["counterexample"]["rule"]])
+    print(out[-1500:])
+    return rc == 1
